@@ -108,13 +108,25 @@ func (b *Built) build3(n *Node) (s sdf.SDF3, err error) {
 	case "cone":
 		s, err = sdf.Cone3D(P[0], P[1], P[2], P[3])
 	case "union3":
-		ks := make([]sdf.SDF3, len(n.K))
+		// the operand list is passed the way callers build it: an existing slice, possibly holding nil
+		// entries (documented as stripped); it is scribbled over afterwards - the shape must not depend
+		// on the caller's slice once the constructor has returned
+		ks := make([]sdf.SDF3, 0, len(n.K)+2)
 		for i := range n.K {
-			if ks[i], err = kid3(i); err != nil {
-				return nil, err
+			k, e := kid3(i)
+			if e != nil {
+				return nil, e
 			}
+			if i == 1 {
+				ks = append(ks, nil)
+			}
+			ks = append(ks, k)
 		}
+		ks = append(ks, nil)
 		s = sdf.Union3D(ks...)
+		for i := range ks {
+			ks[i] = scribble3{}
+		}
 		if n.S != "" {
 			s.(*sdf.UnionSDF3).SetMin(MinBlend(n.S, P[0]))
 		}
@@ -268,6 +280,9 @@ func (b *Built) build3(n *Node) (s sdf.SDF3, err error) {
 			ps = append(ps, v3of(P, i))
 		}
 		s = sdf.Multi3D(a, ps)
+		for i := range ps {
+			ps[i] = v3.Vec{X: math.NaN(), Y: 1e30, Z: -1e30}
+		}
 	case "lineof3":
 		a, e := kid3(0)
 		if e != nil {
@@ -284,6 +299,9 @@ func (b *Built) build3(n *Node) (s sdf.SDF3, err error) {
 			ds = append(ds, v3of(P, i))
 		}
 		s = sdf.Orient3D(a, v3of(P, 0), ds)
+		for i := range ds {
+			ds[i] = v3.Vec{X: math.NaN(), Y: 1e30, Z: -1e30}
+		}
 	case "screw":
 		a, e := kid2(0)
 		if e != nil {
@@ -365,6 +383,9 @@ func (b *Built) build2(n *Node) (s sdf.SDF2, err error) {
 			vs[i] = v2.Vec{X: v[0], Y: v[1]}
 		}
 		s, err = sdf.Polygon2D(vs)
+		for i := range vs {
+			vs[i] = v2.Vec{X: math.NaN(), Y: 1e30}
+		}
 	case "flatflankcam":
 		s, err = sdf.FlatFlankCam2D(P[0], P[1], P[2])
 	case "threearccam":
@@ -401,13 +422,22 @@ func (b *Built) build2(n *Node) (s sdf.SDF2, err error) {
 		}
 		s, err = sdf.Text2D(f, sdf.NewText(n.S), P[0])
 	case "union2":
-		ks := make([]sdf.SDF2, len(n.K))
+		ks := make([]sdf.SDF2, 0, len(n.K)+2)
 		for i := range n.K {
-			if ks[i], err = kid2(i); err != nil {
-				return nil, err
+			k, e := kid2(i)
+			if e != nil {
+				return nil, e
 			}
+			if i == 1 {
+				ks = append(ks, nil)
+			}
+			ks = append(ks, k)
 		}
+		ks = append(ks, nil)
 		s = sdf.Union2D(ks...)
+		for i := range ks {
+			ks[i] = scribble2{}
+		}
 		if n.S != "" {
 			s.(*sdf.UnionSDF2).SetMin(MinBlend(n.S, P[0]))
 		}
@@ -501,6 +531,9 @@ func (b *Built) build2(n *Node) (s sdf.SDF2, err error) {
 			ps = append(ps, v2of(P, i))
 		}
 		s = sdf.Multi2D(a, ps)
+		for i := range ps {
+			ps[i] = v2.Vec{X: math.NaN(), Y: 1e30}
+		}
 	case "lineof2":
 		a, e := kid2(0)
 		if e != nil {
@@ -542,4 +575,20 @@ func Finite(xs ...float64) bool {
 		}
 	}
 	return true
+}
+
+// scribble3 / scribble2 overwrite operand slices after a constructor returned: a shape that kept
+// the caller's slice evaluates to garbage (a huge negative value everywhere, infinite box).
+type scribble3 struct{}
+
+func (scribble3) Evaluate(v3.Vec) float64 { return -1e30 }
+func (scribble3) BoundingBox() sdf.Box3 {
+	return sdf.Box3{Min: v3.Vec{X: -1e30, Y: -1e30, Z: -1e30}, Max: v3.Vec{X: 1e30, Y: 1e30, Z: 1e30}}
+}
+
+type scribble2 struct{}
+
+func (scribble2) Evaluate(v2.Vec) float64 { return -1e30 }
+func (scribble2) BoundingBox() sdf.Box2 {
+	return sdf.Box2{Min: v2.Vec{X: -1e30, Y: -1e30}, Max: v2.Vec{X: 1e30, Y: 1e30}}
 }
